@@ -1585,6 +1585,9 @@ _KEYED_READS = {"get", "setdefault", "pop", "__getitem__", "__contains__"}
 _TEXTUAL = {"str", "None", "bytes"}
 
 
+_SUBCLASSES = {"int": ("bool",), "date": ("datetime", "datetime.datetime", "Timestamp"), "datetime": ("Timestamp",)}
+
+
 def _exact_class_facts(fa: FA, e, pol: bool, param: str):
     """`type(P) is K` / `type(P) in (K, ...)` holding: P is an instance of no proper subclass of K -> the subclasses ruled out."""
     out = set()
@@ -1606,26 +1609,35 @@ def _exact_class_facts(fa: FA, e, pol: bool, param: str):
     if other is None:
         return out
     ks = _class_tokens(fa, other)
-    if ks:
-        out |= {sub for sub, base in _BASE_OF.items() if base in ks and sub not in ks}
+    for k in ks or ():
+        out |= {sub for sub in _SUBCLASSES.get(k.split(".")[-1], ()) if sub not in ks}
     return out
 
 
+_NUMERIC = {"int", "float", "bool", "complex", "Decimal", "Fraction", "Number", "Real", "Rational", "Integral"}
+_INEXACT = {"float", "complex", "Number", "Real"}
+
+
 def _conflated(adm: _Adm, typed: bool = False):
-    """Which differently written values of the admitted classes `==` identifies (None: none).  `typed`: the key holds the
-    class of the value next to the value, so only values of one class can meet."""
-    if typed:
-        return "0.0 == -0.0 (the class in the key keeps 7 and 7.0 apart, not the two zeros)" if adm.classes is None or "float" in adm.classes else None
+    """Which differently written values of the admitted classes `==` identifies (None: none that is known - the numeric
+    tower and the date classes are what the argument domain holds; a class this table does not know is taken to compare
+    by identity).  `typed`: the key holds the class of the value next to the value, so only values of one class meet."""
     if adm.classes is None:
+        if typed:
+            return "nothing confines the class of the key there, and 0.0 == -0.0 (the class in the key keeps 7 and 7.0 apart, not the two zeros)"
         return "nothing confines the class of the key there, and 1 == 1.0 == True, 0.0 == -0.0, a datetime == its Timestamp"
-    rest = set(adm.classes) - _TEXTUAL
-    if not rest or rest == {"bool"}:
+    ks = {k.split(".")[-1] for k in adm.classes}
+    ex = {k.split(".")[-1] for k in adm.excluded}
+    num = ks & _NUMERIC
+    if num & _INEXACT:
+        return "0.0 == -0.0" + (" (the class in the key keeps 7 and 7.0 apart, not the two zeros)" if typed else ", 7 == 7.0" if len(num) > 1 else "")
+    if typed:
         return None
-    if rest == {"int"}:
-        return None if "bool" in adm.excluded else "an int key admits bool, and True == 1"
-    if "float" in rest:
-        return "0.0 == -0.0" + (", 7 == 7.0" if rest & {"int", "bool"} else "")
-    return "instances of %s that are written differently can compare equal (a datetime and its Timestamp, a number and its bool)" % sorted(rest)
+    if len(num) > 1 or (num and num != {"bool"} and "bool" not in ex):
+        return "True == 1" + (" (an int key admits bool)" if num == {"int"} else "") + (", 7 == Decimal(7)" if num - {"int", "bool"} else "")
+    if ("datetime" in ks or ("date" in ks and "datetime" not in ex)) and "Timestamp" not in ex:
+        return "a datetime == the Timestamp of the same instant, which is recorded as another type"
+    return None
 
 
 def _local_guards(st, node):
@@ -1753,6 +1765,19 @@ def _value_carriers(ck, modules):
                     continue
                 for ex in _stmt_exprs(st):
                     for c in A.walk_local(ex):
+                        if isinstance(c, ast.Call) and isinstance(c.func, ast.Name) and c.func.id in ("map", "filter") and len(c.args) == 2 and \
+                                isinstance(c.args[0], (ast.Name, ast.Attribute)) and (A.dotted(c.args[0]) or "").split(".")[-1] in new and \
+                                _value_atoms(fa, st, c.args[1], ids[0], vals):
+                            # map(helper, members of the value): the helper's first parameter holds a member
+                            for tgt in new[A.dotted(c.args[0]).split(".")[-1]]:
+                                ps = [p for p in tgt.params if p not in ("self", "cls")] if tgt.cls is not None and not _is_static(tgt) else list(tgt.params)
+                                have = out.get(tgt.qual)
+                                if ps and not any(s_[2] is c for s_ in sites.setdefault((tgt.qual, ps[0]), [])):
+                                    sites[(tgt.qual, ps[0])].append((fa, st, c, None))
+                                if ps and (have is None or ps[0] not in have[1]):
+                                    out[tgt.qual] = (have[0] if have else FA(ck, tgt), (have[1] if have else set()) | {ps[0]})
+                                    changed = True
+                            continue
                         if not (isinstance(c, ast.Call) and A.call_attr(c) in new):
                             continue
                         for tgt in new[A.call_attr(c)]:
@@ -1800,7 +1825,7 @@ def _class_facts_at(fa: FA, st, node, name: str, ck, sites, depth=0) -> _Adm:
         outer = None
         for (cfa, cst, call, arg) in callers:
             try:
-                ae = _strip_cast(cfa.expand(arg, cfa.nodes(cst)[0]))
+                ae = _strip_cast(cfa.expand(arg, cfa.nodes(cst)[0])) if arg is not None else None
             except AnalysisError:
                 ae = arg
             o = _class_facts_at(cfa, cst, call, ae.id, ck, sites, depth + 1) if isinstance(ae, ast.Name) else _Adm()
@@ -1828,6 +1853,10 @@ def check_values_not_looked_up_by_equality(ck, R, modules=("serialization", "ref
     n_sites = 0
     scanned = []
     carriers, sites = _value_carriers(ck, modules)
+    typed_caches = {}
+    for fi in ck.repo.all_funcs():
+        if any(isinstance(d, ast.Call) and A.norm(d.func).split(".")[-1] == "lru_cache" and A.norm(A.kwarg(d, "typed")) == "True" for d in fi.node.decorator_list):
+            typed_caches.setdefault(fi.name, []).append(fi)
     for qual, (fa, vals) in sorted(carriers.items()):
         if not vals:
             continue
@@ -1846,17 +1875,25 @@ def check_values_not_looked_up_by_equality(ck, R, modules=("serialization", "ref
                         cont, key = n.func.value, n.args[0]
                     elif isinstance(n, ast.Compare) and len(n.ops) == 1 and isinstance(n.ops[0], (ast.In, ast.NotIn)):
                         cont, key = n.comparators[0], n.left
-                    if cont is None or not isinstance(cont, (ast.Name, ast.Attribute)):
+                    elif isinstance(n, ast.Call) and A.call_attr(n) in typed_caches and any(f.module is fa.fi.module or f.name in fa.fi.module.imports or f.cls is not None for f in typed_caches[A.call_attr(n)]):
+                        # a call of a function behind functools.lru_cache(typed=True): its arguments, each with its class, are the key
+                        # (the untyped caches are the typed-identity lint's)
+                        cont, key = None, ast.Tuple(elts=[x for a in n.args if not isinstance(a, ast.Starred) for x in (a, ast.Call(func=ast.Name(id="type", ctx=ast.Load()), args=[a], keywords=[]))] +
+                                                    [x for k in n.keywords if k.arg for x in (k.value, ast.Call(func=ast.Name(id="type", ctx=ast.Load()), args=[k.value], keywords=[]))], ctx=ast.Load())
+                    else:
                         continue
-                    # the container is not (a part of) the argument itself
-                    if _value_atoms(fa, st, cont, at, vals) or (isinstance(cont, ast.Name) and cont.id in _binders(st, n)):
-                        continue
-                    try:
-                        ce = _strip_cast(fa.expand(cont, at))
-                    except AnalysisError:
-                        ce = cont
-                    if isinstance(ce, (ast.Constant, ast.Tuple, ast.JoinedStr)) or (isinstance(ce, ast.Name) and ce.id in fa.fi.params):
-                        continue
+                    if cont is not None:
+                        if not isinstance(cont, (ast.Name, ast.Attribute)):
+                            continue
+                        # the container is not (a part of) the argument itself
+                        if _value_atoms(fa, st, cont, at, vals) or (isinstance(cont, ast.Name) and cont.id in _binders(st, n)):
+                            continue
+                        try:
+                            ce = _strip_cast(fa.expand(cont, at))
+                        except AnalysisError:
+                            ce = cont
+                        if isinstance(ce, (ast.Constant, ast.Tuple, ast.JoinedStr)) or (isinstance(ce, ast.Name) and ce.id in fa.fi.params):
+                            continue
                     # the raw values in the key
                     try:
                         ke = _strip_cast(fa.expand(key, at))
@@ -1884,7 +1921,7 @@ def check_values_not_looked_up_by_equality(ck, R, modules=("serialization", "ref
                         acc = _class_facts_at(fa, st, n, p, ck, sites)
                         why = _conflated(acc, p in classes_in_key)
                         ck.ob(R, fa.key(st, "value-keyed-lookup:%s" % p), why is None,
-                              "`%s` looks `%s` up where it can only be text, None or one integral class: equal keys are written the same" % (A.short(n, 50), p) if why is None else
+                              "`%s` looks `%s` up where equal keys are written the same (%s)" % (A.short(n, 50), p, "classes " + ", ".join(sorted(acc.classes)) if acc.classes else "class in key") if why is None else
                               "`%s` looks an entry up by the raw argument value `%s` (key `%s`), and %s: a value is answered with what was recorded for "
                               "another value that merely compares equal but is written differently on the wire and in the canonical text, so the written "
                               "form and the argument hash of a value depend on which values were seen before - the hash recomputed from a decoded "
